@@ -53,7 +53,9 @@ theorem InvK.tryAdd {k : Cfg} {s : St} {p : Nat} {el : Int} (h : InvK s) : InvK 
   · split
     · exact h.congr rfl rfl rfl rfl
     · exact h.congr rfl rfl rfl rfl
-  · exact h.push (p, el) rfl rfl rfl rfl
+  · split
+    · exact h.congr rfl rfl rfl rfl
+    · exact h.push (p, el) rfl rfl rfl rfl
 
 theorem InvK.ptryAdd {k : Cfg} {s : St} {p : Nat} {el : Int} (h : InvK s) : InvK (ptryAdd k s p el) := by
   unfold OtelVerif.C02.ptryAdd
